@@ -351,7 +351,14 @@ def rekeying(rep: Report, prog: Program) -> None:
     dimension must get the longer exponent vector and its new key - otherwise dimensions
     interned earlier keep short keys and equal expressions intern twice."""
     fi = prog.func("Dimension.define")
-    loops = [n for n in ast.walk(fi.node) if isinstance(n, ast.For)
+    hosts = [fi.node]
+    # the loop may sit in a method of Dimension that define calls as a statement of its own on its way out
+    for st in fi.node.body:
+        c = st.value if isinstance(st, ast.Expr) else None
+        if isinstance(c, ast.Call) and isinstance(c.func, ast.Attribute) and isinstance(c.func.value, ast.Name) \
+                and c.func.value.id in ("cls", "Dimension") and f"Dimension.{c.func.attr}" in prog.functions:
+            hosts.append(prog.functions[f"Dimension.{c.func.attr}"].node)
+    loops = [n for h in hosts for n in ast.walk(h) if isinstance(n, ast.For)
              and any(isinstance(x, (ast.Delete, ast.Assign, ast.AugAssign)) and "_known" in ast.unparse(x) for x in ast.walk(n))]
     if not loops:
         rep.fail("R02.9", "Dimension.define:rekey", "Dimension.define no longer re-keys the interned dimensions when the exponent "
